@@ -158,7 +158,8 @@ Definition denote_chart (value : text) (time : Q -> Q) : option dchart :=
   | [ty; desc; diff; meter; radar; data] =>
       match ref_keys ty, parse_int meter, map_opt parse_decimal (split_on 44 radar) with
       | Some keys, Some mt, Some rd =>
-          match denote_measures (split_on 44 data) keys 0 time (repeat None (Z.to_nat keys)) [] [] with
+          (* empty note data = a chart without measures *)
+          match denote_measures (match data with [] => [] | _ => split_on 44 data end) keys 0 time (repeat None (Z.to_nat keys)) [] [] with
           | Some (op, notes, ns) =>
               if forallb (fun o : option (kind * Q) => match o with None => true | Some _ => false end) op
               then Some (mkDc ty desc diff mt rd (rev ns) (rev notes))
